@@ -38,18 +38,11 @@ def run_tables(run, rng):
             meta[f"table_{name}"] = meta[f"unitary_{name}"] = (name, nq, len(ps))
             run.case(["table", name])
             run.sample({"obligation": f"table_{name}", "class": name, "params": ps})
-    res, out = run.coq_bools("C01_tables_triage.v", HEADER, items, timeout=900)
+    res, okc = run.prove_bools("C01_tables", HEADER, items, timeout=900, kind="gate-table")
     if res is None:
-        run.find("coq:C01_tables", "generated gate-table obligations do not compile", {"log": out[-1500:]}, concrete=False)
+        run.find("coq:C01_tables", "generated gate-table obligations do not compile", concrete=False)
         return
-    good = [(n_, t) for n_, t in items if res[n_]]
     bad = [(n_, t) for n_, t in items if not res[n_]]
-    thms = [(f"ok_{n_}", f"{t} = true", "vm_compute; reflexivity.") for n_, t in good]
-    ok, out2 = run.coq_theorems("C01_tables_theorems.v", HEADER, thms, timeout=900)
-    for n_, _ in good:
-        run.oblige(n_, ok, "gate-table")
-    if not ok:
-        run.find("coq:C01_tables_theorems", "theorem file does not compile", {"log": out2[-1500:]}, concrete=False)
     for n_, t in bad:
         name, nq, npar = meta[n_]
         w = search(name, nq, npar, n_.startswith("unitary"), rng)
